@@ -391,3 +391,29 @@ PROPS["C08"] = {
                   "writes for an imported dependency is checked against the real component with the reference validator's own relation.",
     "level_note": "Held on generated WIT shapes; the model compares structure after alias expansion, so alias bookkeeping itself is only checked through `use` provenance.",
 }
+
+PROPS["C09"] = {
+    "shards": 16,
+    "quick_budget_s": 60,
+    "thorough_budget_s": 900,
+    "floors": {"any": {"aggregate:ok": 1500, "aggregate:conflict": 200, "permutations": 20000, "upper-bound-checks": 4000,
+                       "idempotence-checks": 1500, "wit:aggregate:ok": 200, "wit:upper-bound-checks": 1000, "wit:permutations": 1000}},
+    "rule": "Shaped workload: 2-5 requirements per case, each decoded into ITS OWN type collection from a one-import component; names "
+            "drawn from one interface on several tracks (1.0.0/1.1.0/1.2.5, 2.0.0, 0.3.1/0.3.2, 0.0.1/0.0.2, a pre-release, unversioned), "
+            "another interface and plain names; instance requirements export random subsets of 5 functions whose signature is one of 3 "
+            "variants (a quarter of the cases make one contributor deviate: a conflict), plain function and resource requirements. "
+            "Checked: aggregation fails exactly when the conflict model says two requirements of one group disagree; ALL "
+            "permutations (n <= 4, else 24 random ones) give the same verdict, the same canonical names and structurally equal "
+            "imports (export order ignored); canonical name = highest version of the group (semver crate), is imported, and there is "
+            "one import per group; the merged type is a subtype of every contributor; merged instances export exactly the union; "
+            "equal function/resource requirements merge to themselves; aggregating everything twice equals once. WIT workload: "
+            "requirements = all imports of 2-4 generated components over versioned libraries with resources and `use` across "
+            "merged interfaces (one type collection per component): upper bound, canonical = highest contributed version, same "
+            "names and imports for 6 random orders, no conflict (versions are compatible by construction). Non-trivial: a case in "
+            "which at least two names merge or a name is contributed twice.",
+    "assumptions": ["later versions are supersets by construction in the WIT workload"],
+    "technique": "runtime monitor: algebraic-law oracle (upper bound, union, idempotence, permutation invariance, keep-highest) + conflict model on TypeAggregator",
+    "level_text": "The merger is driven with thousands of requirement multisets in every order and its results are checked against the laws "
+                  "the property states and a model that predicts conflicts.",
+    "level_note": "Export order of merged instances is not compared (the statement allows 'up to import order').",
+}
